@@ -38,6 +38,10 @@ def run_shard(args):
         d, k = args.only.rsplit(":", 1)
         only = (d, int(k))
     ctx = core.Ctx(args.pid, args.tier, args.seed, shard=i, nshards=n, only=only)
+    from . import reach
+
+    # anchors must be resolved before setup() wraps them (the wrappers keep the original in __pfv_orig__ anyway)
+    reach_on = reach.start(getattr(mod, "ANCHORS", []))
     if hasattr(mod, "setup"):
         mod.setup(ctx)
     deadline = time.time() + args.budget
@@ -53,6 +57,7 @@ def run_shard(args):
     if hasattr(mod, "teardown"):
         mod.teardown(ctx)
     out = ctx.dump()
+    out["reach"] = reach.report() if reach_on else {}
     out["tree"] = boot.tree_identity()
     out["meta"] = {
         "rule": getattr(mod, "RULE", ""),
@@ -77,8 +82,15 @@ def merge(dumps):
         "notes": {},
         "branches": {},
         "extra": {},
+        "reach": {},
     }
     for d in dumps:
+        for spec, r in (d.get("reach") or {}).items():
+            cur = m["reach"].get(spec)
+            if cur is None:
+                m["reach"][spec] = {"lines_executable": r["lines_executable"], "missed": set(r["missed"]), "truncated": len(r["missed"]) >= 25}
+            else:
+                cur["missed"] &= set(r["missed"])
         for k, v in d["mon"].items():
             c = m["mon"].setdefault(k, {})
             for kk, vv in v.items():
@@ -130,6 +142,7 @@ def main():
         rp = json.load(open(args.replay))
         args.pid, args.tier, args.seed = rp["property"], rp["tier"], rp["seed"]
         only = f"{rp['driver']}:{rp['case']}"
+    replay_pytest = bool(args.replay) and rp.get("driver") == "pytest"
     tier = args.tier
     ncpu = os.cpu_count() or 4
     if only:
@@ -146,7 +159,7 @@ def main():
     os.makedirs(wdir, exist_ok=True)
     env = child_env(tag)
     procs = []
-    for i in range(nsh):
+    for i in range(0 if replay_pytest else nsh):
         out = os.path.join(wdir, f"shard{i}.json")
         cmd = [PY, "-m", "pfv.run", args.pid, tier, "--shard", f"{i}/{nsh}", "--out", out,
                "--seed", str(args.seed), "--budget", str(budget)]
@@ -167,14 +180,40 @@ def main():
             inconclusive.append(f"shard {i} exited rc={rc}: {tail}")
             continue
         dumps.append(json.load(open(out)))
+    # ---- the repository's own tests as one more workload (thorough tier of the passive-monitor properties) ----------------
+    pyt_info = None
+    pmod_path = os.path.join(ROOT, "pfv", "props", args.pid.lower() + ".py")
+    wants_pytest = os.path.exists(pmod_path) and "PYTEST_WORKLOAD = True" in open(pmod_path).read()
+    if wants_pytest and ((tier == "thorough" and not only and dumps) or replay_pytest):
+        repo = os.path.realpath(os.environ.get("PFV_REPO", "/repo"))
+        ddir = os.path.join(wdir, "pytest")
+        penv = dict(env, PFV_DUMP_DIR=ddir, PYTHONPATH=ROOT + os.pathsep + repo)
+        target = [rp["case"]] if replay_pytest else ["tests"]
+        cmd = [PY, "-m", "pytest", "-q", "-x" if False else "-q", "-p", "no:cacheprovider", "-p", "pfv.pytest_plugin", "--pfv-prop", args.pid, "--pfv-seed", str(args.seed),
+               "-k", "not gpu", "--timeout=900"] + (["-n", str(min(16, ncpu))] if not replay_pytest else []) + target
+        pr = subprocess.run(cmd, cwd=repo, env=penv, capture_output=True, text=True, timeout=3000)
+        pd = []
+        if os.path.isdir(ddir):
+            for fn in sorted(os.listdir(ddir)):
+                pd.append(json.load(open(os.path.join(ddir, fn))))
+        tail = (pr.stdout or "").strip().splitlines()[-1:] or [""]
+        pyt_info = {"pytest_summary": tail[0][:200], "processes": len(pd), "judgements": sum(d["evaluations"] for d in pd)}
+        if replay_pytest:
+            dumps = pd or dumps
+        else:
+            if not pd:
+                inconclusive.append("pytest workload produced no monitor dump: " + (pr.stdout or pr.stderr)[-400:])
+            dumps += pd
     if not dumps:
         print(f"INCONCLUSIVE property={args.pid} reason=no shard completed")
         for r in inconclusive:
             print(r)
         return 2
     m = merge(dumps)
-    meta = dumps[0]["meta"]
-    tree = dumps[0]["tree"]
+    meta = next((d["meta"] for d in dumps if d.get("meta")), None) or {"rule": "", "assumptions": [], "deciding": [], "required_branches": [], "drivers": []}
+    tree = next((d["tree"] for d in dumps if d.get("tree")), {})
+    if pyt_info:
+        m["extra"]["repo_test_suite_workload"] = pyt_info
 
     # ---- classify violations ---------------------------------------------------------------
     known, fixed = core.load_known()
@@ -242,6 +281,9 @@ def main():
                 "monitors": m["mon"],
                 "branches_observed": m["branches"],
                 "notes": m["notes"],
+                "reach": {k_: {"lines_executable": v_["lines_executable"], "lines_never_reached": sorted(v_["missed"]),
+                               "lines_reached": v_["lines_executable"] - len(v_["missed"]) if not v_["truncated"] else None}
+                          for k_, v_ in m["reach"].items()},
                 "extra": m["extra"],
                 "drivers_cases": meta["drivers"],
                 "shards": nsh,
